@@ -7,6 +7,7 @@ import (
 	"io"
 	"log"
 	"os"
+	"runtime"
 	"time"
 
 	"github.com/echovault/sugardb/sugardb"
@@ -27,6 +28,7 @@ type Srv struct {
 	Clock *sugardb.VerifClock
 	Ep    Epoch
 	Dead  bool // a command panicked: internal locks may be held, the instance is unusable
+	EmbDB int  // database currently selected by the embedded caller
 }
 
 type SrvOpts struct {
@@ -89,6 +91,44 @@ func NewSrv(o SrvOpts) (*Srv, error) {
 // Now is the virtual time in ms relative to the epoch.
 func (s *Srv) Now() int64 { return s.Ep.Rel(s.Clock.Now()) }
 
+// StepTimeout bounds one step on the real server; a step that does not return is a hang
+// (deadlock or endless loop) and is reported as such.
+var StepTimeout = 5 * time.Second
+
+// HangDump receives the goroutine stacks of the first hang.
+var HangDump = ""
+
+// guarded runs f on its own goroutine and reports a panic or a hang.
+func (s *Srv) guarded(f func()) (outcome string, why string) {
+	done := make(chan string, 1)
+	go func() {
+		defer func() {
+			if p := recover(); p != nil {
+				done <- fmt.Sprint("panic: ", p)
+				return
+			}
+			done <- ""
+		}()
+		f()
+	}()
+	select {
+	case w := <-done:
+		if w != "" {
+			s.Dead = true
+			return "panic", w
+		}
+		return "", ""
+	case <-time.After(StepTimeout):
+		s.Dead = true
+		if HangDump == "" {
+			buf := make([]byte, 1<<20)
+			n := runtime.Stack(buf, true)
+			HangDump = string(buf[:n])
+		}
+		return "hang", "step did not return within " + StepTimeout.String()
+	}
+}
+
 // Exec runs one command through the embedded raw entry point (the same handleCommand path
 // a TCP client reaches) and returns the abstract reply.
 func (s *Srv) Exec(cmd []Tok) (r Reply) {
@@ -99,13 +139,11 @@ func (s *Srv) Exec(cmd []Tok) (r Reply) {
 	for i, t := range cmd {
 		wire[i] = s.Ep.Wire(t)
 	}
-	defer func() {
-		if p := recover(); p != nil {
-			s.Dead = true
-			r = Reply{T: "panic", Why: fmt.Sprint(p)}
-		}
-	}()
-	raw, err := s.DB.ExecuteCommand(wire...)
+	var raw []byte
+	var err error
+	if oc, why := s.guarded(func() { raw, err = s.DB.ExecuteCommand(wire...) }); oc != "" {
+		return Reply{T: oc, Why: why}
+	}
 	if err != nil {
 		return Reply{T: "err", B: []byte(err.Error())}
 	}
